@@ -232,7 +232,7 @@ class C13(vlib.Check):
                 if t[1 + i] != base[i]:
                     yield ' '.join(t[:1 + i] + [base[i]] + t[2 + i:])
             for v in ('0x3ff0000000000000', '0x%016x' % pow10(100)):
-                if t[0] != 'format_float' and t[7] != v:
+                if t[0] != 'format_float' and t[7] != v and int(t[2]) <= 1000:
                     yield ' '.join(t[:7] + [v])
 
     def summarize(self, cases, impl):
